@@ -250,7 +250,7 @@ fn check(id: &str, tier: Tier) -> i32 {
         .with("assumptions", J::Arr(prop.assumptions.iter().map(|s| J::s(*s)).collect()))
         .with("wall_s", J::Num(wall))
         .with("violations", J::Int(violations as i128));
-    let dir = verif_dir().join("evidence");
+    let dir = runner::out_dir().join("evidence");
     let _ = std::fs::create_dir_all(&dir);
     let path = dir.join(format!("{}.json", prop.id));
     if let Err(e) = std::fs::write(&path, ev.to_string_pretty()) {
